@@ -16,8 +16,6 @@ import ufl
 import ufl.classes as C
 from mc.props import c13_univ as U
 from mc.runner import Part, pmap
-from mc.sem import sem as M
-from mc.sem.jet import Undefined
 
 G = {}
 
@@ -125,10 +123,31 @@ POOL_FORMS_NAMES = [
     "e1 [independent copy, integrand of F1]",
 ]
 
+def pool_bfo():
+    """operators that carry data besides their operands (ExternalOperator derivatives / function space)."""
+    a, b = _base(), _base()
+    Sa = a["f"].ufl_function_space()
+    Sb = b["f"].ufl_function_space()
+    n0 = C.ExternalOperator(a["f"], function_space=Sa)
+    n1 = C.ExternalOperator(a["f"], function_space=Sa, derivatives=(1,))
+    n0b = C.ExternalOperator(b["f"], function_space=Sb)
+    return [abs(n0), abs(n1), abs(n0b), n0, n1, a["g"] * n0]
+
+
+POOL_BFO_NAMES = [
+    "q0=abs(N0), N0=ExternalOperator(f; derivatives=(0,))",
+    "q1=abs(N1), N1=ExternalOperator(f; derivatives=(1,))",
+    "q2=abs(N0) [independent copy]",
+    "q3=N0, the operand object of q0",
+    "q4=N1, the operand object of q1",
+    "q5=g*N0 [N0 is its operand object]",
+]
+
 POOLS = {
     "core": (pool_core, POOL_CORE_NAMES),
     "ext": (pool_ext, POOL_EXT_NAMES),
     "forms": (pool_forms, POOL_FORMS_NAMES),
+    "bfo": (pool_bfo, POOL_BFO_NAMES),
 }
 
 
@@ -281,8 +300,8 @@ def hist_worker(chunk):
 def plan(quick):
     # (pool, max history length, max length with the value check)
     if quick:
-        return [("core", 3, 2), ("ext", 2, 2), ("forms", 2, 0)]
-    return [("core", 4, 3), ("ext", 3, 3), ("forms", 3, 0)]
+        return [("core", 3, 2), ("ext", 2, 2), ("forms", 2, 0), ("bfo", 2, 0)]
+    return [("core", 4, 3), ("ext", 3, 3), ("forms", 3, 0), ("bfo", 3, 0)]
 
 
 def history_items(run, quick):
